@@ -797,6 +797,18 @@ func (g *gen) loop(d int, vars []string) N {
 		}
 		test := N{"k": "lt", "a": lit(I(lim)), "b": N{"k": "var", "n": v}}
 		res := []any{g.m(N{"k": "add", "a": N{"k": "var", "n": w}, "b": N{"k": "var", "n": acc}})}
+		if g.one(2) {
+			// a variable without a step form keeps its value from one iteration to the next: for the machine its step form is
+			// the variable itself
+			u := g.fresh()
+			uv := N{"n": u, "init": lit(I(20 + g.rng.Intn(10))), "step": N{"k": "var", "n": u}, "nostep": true}
+			if g.one(2) {
+				vs = append([]any{uv}, vs...)
+			} else {
+				vs = append(vs, uv)
+			}
+			res = []any{g.m(N{"k": "add", "a": N{"k": "add", "a": N{"k": "var", "n": w}, "b": N{"k": "var", "n": acc}}, "b": N{"k": "var", "n": u}})}
+		}
 		lp = N{"k": "do", "star": star, "vars": vs, "test": test, "res": res, "body": body}
 	}
 	// (let ((acc 0) [(v list-or-count)]) loop)
@@ -1234,6 +1246,10 @@ func render(n N) string {
 		var vs []string
 		for _, v := range n["vars"].([]any) {
 			vn := v.(N)
+			if ns, _ := vn["nostep"].(bool); ns {
+				vs = append(vs, fmt.Sprintf("(%s %s)", vn["n"], render(vn["init"].(N))))
+				continue
+			}
 			vs = append(vs, fmt.Sprintf("(%s %s %s)", vn["n"], render(vn["init"].(N)), render(vn["step"].(N))))
 		}
 		return fmt.Sprintf("(%s (%s) (%s%s)%s)", name, strings.Join(vs, " "), render(n["test"].(N)), rlist(n["res"].([]any)), rlist(n["body"].([]any)))
